@@ -724,6 +724,32 @@ func checkClipSearch(c *Ctx) {
 			pred = a
 		}
 		R.Check(pred != nil && isDestPred(pred), "R03.6", fn+"#search", d.Pos(), fn, "cut index = slices.IndexFunc(results, x != nil && x.IsDest): the first, i.e. lowest, destination answer", "the predicate handed to slices.IndexFunc is not `x != nil && x.IsDest`: the list is not cut at the lowest destination answer")
+		// the cut is applied whenever a destination answer was found: every dominating condition on the index is the 'found' test
+		// (idx != -1, idx >= 0, ...), nothing stricter
+		conds, truth := domFacts(at.Block())
+		guardOK, nguard := true, 0
+		bad := ""
+		for i, cd := range conds {
+			bo, ok := cd.(*ssa.BinOp)
+			if !ok {
+				continue
+			}
+			onIdx := stripWiden(bo.X) == ssa.Value(d) || stripWiden(bo.Y) == ssa.Value(d)
+			if !onIdx {
+				continue
+			}
+			nguard++
+			found := false
+			if k, isK := bo.Y.(*ssa.Const); isK && k.Value != nil && stripWiden(bo.X) == ssa.Value(d) {
+				v := k.Int64()
+				found = (bo.Op == token.NEQ && v == -1 && truth[i]) || (bo.Op == token.EQL && v == -1 && !truth[i]) || (bo.Op == token.GEQ && v == 0 && truth[i]) || (bo.Op == token.LSS && v == 0 && !truth[i]) || (bo.Op == token.GTR && v == -1 && truth[i]) || (bo.Op == token.LEQ && v == -1 && !truth[i])
+			}
+			if !found {
+				guardOK = false
+				bad = cd.String()
+			}
+		}
+		R.Check(guardOK, "R03.6", fn+"#cut-guard", at.Pos(), fn, fmt.Sprintf("the cut after the destination is applied whenever the search found one (%d guard(s), all the 'found' test)", nguard), "the cut results[:idx+1] is guarded by a condition on the index other than the 'found' test ("+bad+"): when the destination answers at a TTL the guard excludes (e.g. the first probed TTL) nothing is cut, the list runs on to MaxTTL and entries after the destination can be destinations too")
 		return
 	case *ssa.Phi:
 		// the web of phis that carry D
